@@ -5,13 +5,16 @@ two kinds of case:
    (only read_word/write_word are ours - read_data_byte is the real base-class code) or none at all;
  * kind 'run': an engine case (see engine.py) whose program emits the bytes; the screen is the io_device of a real
    fjm_run.run, the memory view is the adapter the engine attaches.
-Observed: a snapshot (pixel_indices, palette) at every present, frame_hashes, the final state, the exception class.
+Observed: a snapshot (pixel_indices, palette, last_frame_rgb, width, height) at every present, frame_hashes, the PNG
+written per present into frames_dir (decoded back to RGB rows), the final state, the exception class.
 """
 import json
 import os
 import signal
+import struct
 import sys
 import tempfile
+import zlib
 from pathlib import Path
 
 from fjverif.workers import engine as eng          # installs the freshly built native engine (FJVERIF_FJCORE_SO)
@@ -37,8 +40,8 @@ class DictMemory(DeviceMemory):
 class ObservedScreen(InMemoryScreen):
     """InMemoryScreen unchanged; write_bit additionally snapshots the public state after each present"""
 
-    def __init__(self):
-        super().__init__(frames_dir=None)
+    def __init__(self, frames_dir=None):
+        super().__init__(frames_dir=frames_dir)
         self.snapshots = []
         self.attached = None
 
@@ -50,15 +53,55 @@ class ObservedScreen(InMemoryScreen):
         before = self.frame_count
         super().write_bit(bit)
         if self.frame_count != before:
-            self.snapshots.append([list(self.pixel_indices), [list(c) for c in self.palette]])
+            self.snapshots.append([list(self.pixel_indices), [list(c) for c in self.palette],
+                                   [(r << 16) | (g << 8) | b for r, g, b in self.last_frame_rgb], self.width, self.height])
 
 
 def classify(e):
     return 1 if isinstance(e, IODeviceException) else 2
 
 
+def decode_png(data):
+    """the minimal PNGs of ScreenIO.encode_png: returns [width, height, [rgb codes]] or a string describing the problem"""
+    if data[:8] != b'\x89PNG\r\n\x1a\n':
+        return 'bad signature'
+    pos, chunks = 8, []
+    while pos < len(data):
+        n, = struct.unpack('>I', data[pos:pos + 4])
+        typ, body = data[pos + 4:pos + 8], data[pos + 8:pos + 8 + n]
+        crc, = struct.unpack('>I', data[pos + 8 + n:pos + 12 + n])
+        if zlib.crc32(typ + body) & 0xFFFFFFFF != crc:
+            return 'bad crc'
+        chunks.append((typ, body))
+        pos += 12 + n
+    if [c[0] for c in chunks] != [b'IHDR', b'IDAT', b'IEND']:
+        return 'chunks ' + repr([c[0] for c in chunks])
+    w, h, depth, ctype, comp, flt, inter = struct.unpack('>IIBBBBB', chunks[0][1])
+    if (depth, ctype, comp, flt, inter) != (8, 2, 0, 0, 0):
+        return 'header'
+    raw = zlib.decompress(chunks[1][1])
+    if len(raw) != h * (1 + 3 * w):
+        return 'size'
+    out = []
+    for y in range(h):
+        row = raw[y * (1 + 3 * w):(y + 1) * (1 + 3 * w)]
+        if row[0] != 0:
+            return 'filter'
+        out += [(row[1 + 3 * x] << 16) | (row[2 + 3 * x] << 8) | row[3 + 3 * x] for x in range(w)]
+    return [w, h, out]
+
+
 def observe(dev, res):
     res['frames'] = dev.snapshots
+    res['rgb'] = [(r << 16) | (g << 8) | b for r, g, b in dev.last_frame_rgb]
+    pngs = []
+    if dev.frames_dir is not None and dev.frames_dir.exists():
+        files = sorted(dev.frames_dir.iterdir())
+        res['png_names'] = [f.name for f in files]
+        for f in files:
+            pngs.append(decode_png(f.read_bytes()))
+            f.unlink()
+    res['pngs'] = pngs
     res['hashes'] = [h for _, h in dev.frame_hashes]
     res['frame_count'] = dev.frame_count
     res['pix'] = list(dev.pixel_indices)
@@ -68,8 +111,8 @@ def observe(dev, res):
     return res
 
 
-def stream_case(c):
-    dev = ObservedScreen()
+def stream_case(c, td):
+    dev = ObservedScreen(Path(td) / 'frames')
     if c.get('w') is not None:
         dev.attach_memory(DictMemory(c['w'], {int(a): v for a, v in c['words']}))
     res = {'err': 0}
@@ -99,7 +142,7 @@ def run_case(c, td):
             os.environ['FLIPJUMP_NO_FLAT'] = '1'
         if c.get('flat_max_words'):
             kw['flat_max_words'] = c['flat_max_words']
-    dev = ObservedScreen()
+    dev = ObservedScreen(Path(td) / 'frames')
     res = {'err': 0}
     signal.setitimer(signal.ITIMER_REAL, c.get('watchdog', 10.0))
     try:
@@ -127,7 +170,7 @@ def main():
     out = []
     with tempfile.TemporaryDirectory(dir=os.getcwd()) as td:
         for c in cases:
-            out.append(stream_case(c) if c['kind'] == 'stream' else run_case(c, td))
+            out.append(stream_case(c, td) if c['kind'] == 'stream' else run_case(c, td))
     Path(sys.argv[2]).write_text(json.dumps(out))
 
 
